@@ -378,10 +378,9 @@ theorem pass3_ok (p : String) (env : Env) (s : Schema) : AllOK p (pass3 p env s)
   intro decl _
   cases decl with
   | entity e =>
+    simp only [superSubDiags]
     apply allOK_append
     · apply allOK_filterMap; intro x _ d hd
-      obtain ⟨n, l⟩ := x
-      simp only at hd
       split at hd
       · simp at hd
       · split at hd <;> (simp at hd; subst hd; okd)
@@ -471,7 +470,8 @@ theorem pass4_ok (p : String) (env : Env) (s : Schema) : AllOK p (pass4 p env s)
   | entity e =>
     simp only
     refine allOK_append (allOK_append (allOK_append ?_ ?_) ?_) ?_
-    · apply allOK_filterMap; intro x _ d hd
+    · simp only [missingSuperDiags]
+      apply allOK_filterMap; intro x _ d hd
       split at hd
       · split at hd
         · simp at hd
@@ -483,7 +483,12 @@ theorem pass4_ok (p : String) (env : Env) (s : Schema) : AllOK p (pass4 p env s)
       · exact inverseDiags_ok _ _ _ _
       · exact allOK_nil _
     · apply allOK_flatMap; intro u _; exact uniqueDiags_ok _ _ _ _ _
-    · exact cycleDiags_ok _ _ _ _ _ (fun _ _ => by okd) (fun _ _ => by okd) _
+    · split
+      · simp only [nestingDiags]
+        split
+        · exact allOK_one (by okd)
+        · exact allOK_nil _
+      · exact cycleDiags_ok _ _ _ _ _ (fun _ _ => by okd) (fun _ _ => by okd) _
   | func _ => exact allOK_nil _
   | syntaxError _ _ _ => exact allOK_nil _
 
